@@ -102,6 +102,39 @@ impl<'a, E> Iterator for Inexact<'a, E> {
     fn size_hint(&self) -> (usize, Option<usize>) { (0, None) }
 }
 
+/// an iterator whose size hint has an upper bound that is not exact (like `filter`)
+struct UpperBound<'a, E> { xs: &'a [E], i: usize, claimed: usize }
+impl<'a, E> Iterator for UpperBound<'a, E> {
+    type Item = &'a E;
+    fn next(&mut self) -> Option<&'a E> {
+        if self.i < self.xs.len() { self.i += 1; Some(&self.xs[self.i - 1]) } else { None }
+    }
+    fn size_hint(&self) -> (usize, Option<usize>) { (0, Some(self.claimed)) }
+}
+
+proof! {
+    //@ props=C12,C04 tier=quick bounds=serialize_iterator:size-hint(0,Some(n))-with-n-symbolic>=2,two-elements-yielded:unknown-length-form
+    fn c12_enc_inexact_upper_bound() unwind(7) {
+        let xs = elems3::<u16>();
+        let v: Vec<u16> = vec![xs[0], xs[1]];
+        let ru = unknown_form(&xs, 2);
+        let claimed = sym::usize_();
+        sym::assume(claimed >= 2);
+        let mut ctx = SerializationContext::new(Vec::new());
+        let mut it = UpperBound { xs: &v[..], i: 0, claimed };
+        match desert_core::serialize_iterator(&mut it, &mut ctx) {
+            Ok(()) => {}
+            Err(e) => { std::mem::forget(e); assert!(false); }
+        }
+        let out = ctx.into_output();
+        assert_bytes_eq(&out, &ru);
+        cover!(claimed == 2);
+        cover!(claimed > 2);
+        std::mem::forget(out);
+        std::mem::forget(v);
+    }
+}
+
 fn ser<T: BinarySerializer>(v: &T, r: &Buf) {
     match desert_core::serialize(v, Vec::new()) {
         Ok(out) => { assert_bytes_eq(&out, r); std::mem::forget(out); }
